@@ -1,37 +1,283 @@
-"""A deliberately small Python-AST → Lean 4 translator for integer functions (DESIGN §3.C).
-
-Subset: a function whose body is made of assignments to local names, `if/elif/else`, `for` over a *literal*
-tuple of tuples (unrolled), and `return` of an expression/tuple/constructor call; expressions over ints:
-+ - * // % << >> & | (with literal right operand for shifts), comparisons, and/or/not, `min`/`max`/`int`,
-enum members (`LTbase.X` → its integer value), `self.attr` (→ parameter `attr`), `self.attr.value`,
-`(2**32)/2`-style constant expressions that evaluate to an integer.
-
-The output is a total Lean definition over `Int` using `let` chains (one fresh name per assignment; an `if`
-statement becomes one conditional `let` per variable assigned in it).  Floor division/modulo by a positive
-literal are `/` and `%` on `Int` (Euclidean = floor for a positive divisor; the translator refuses any other
-divisor).  Anything outside the subset raises `Unsupported` — the caller logs `extract-skipped` and the
+"""A deliberately small, typed Python-AST -> Lean 4 translator for integer / bit-level / octet-string functions
+(DESIGN section 3.C).  Anything outside the subset raises `Unsupported`: the caller logs `extract-skipped` and the
 property falls back on correspondence alone (never a violation by itself).
+
+VALUES AND THEIR LEAN REPRESENTATION (one representation each, shared with the hand models' primitives)
+  Nat    a Python int the *caller asserts* non-negative (parameter types are part of the job description and are
+         exactly the quantifier domain of the bridge lemma) or that is non-negative by construction
+         (literal >= 0, `int.from_bytes`, `x & mask`, `x % k` with k > 0, `len`, Nat op Nat for + * // % << >> & | ^).
+  Int    any other Python int (every subtraction, unary minus, negative literals, signed `from_bytes`).
+         Nat is coerced to Int where the two meet; Int is never narrowed to Nat except by `& (2^k-1)` / `% k`.
+  Bool   Python bool.  In arithmetic it is `b2n b` (0/1); `bool(x)` of an int is `x != 0`; truthiness of an int in a
+         condition is `x ≠ 0`.  `and`/`or`/`not` are accepted on Bool-typed operands only (otherwise Python returns
+         an operand, not a bool).  Comparisons are emitted as decidable `Prop`s inside `if` and as `decide p` as values.
+  enum   a member of a Python `Enum` with int values = its value (Nat).  `E.M` -> literal, `x.value` -> x,
+         `E(v)` -> `enumOf [codes regenerated from the enum] v : Except Err Nat` (ValueError on an unknown code; never
+         totalised).  `==` between enum values is accepted only for the same enum class (Python compares identity).
+  Bytes  `bytes` = `FlexModel.Wire.Bytes` = `List Nat` (octets; well-formedness `∀ b ∈ l, b < 256` is a hypothesis of
+         a bridge lemma where needed).  `a + b` -> `++`, `len` -> `.length`, `b[i:j]` (literal bounds 0<=i<=j) ->
+         `slice b i j`, `b[i:]` -> `b.drop i`, `b[k]` (literal k) -> `b.getD k 0` ONLY when the translator has
+         established `k < len(b)` (see "length facts"), `int.from_bytes(b, "big"[, signed=True])` ->
+         `fromBytesBE` / `fromBytesSigned`, `x.to_bytes(n, "big"[, signed=True])` -> `toBytes? n x` /
+         `intToBytes? n x` / `intToBytesSigned? n x : Except Err Bytes` (OverflowError kept), bytes literals.
+  record a (data)class instance = the tuple of its leaf fields, flattened in declared order (nested records are
+         flattened in place).  As a parameter (`self`, `other`) it is one Lean parameter per leaf
+         (`lt_multiplier`); as a result it is a right-nested Lean tuple.  `self.f`, `C(f=..)`, `cls(f=..)` are
+         resolved symbolically; omitted constructor arguments take the dataclass defaults when these are plain
+         ints/bools/enum members/default-constructed records; a `__post_init__` is inlined (it must vanish by
+         constant folding, e.g. `len(mid) != 6` on a slice of known length, or translate to a supported `raise`).
+         The declared field list is checked against `dataclasses.fields` at generation time.
+  errors `raise DecodeError/ValueError/OverflowError(..)` -> `Except.error Err.decode/.value/.overflow`; any other
+         exception class is refused.  A function containing a raising construct is emitted in the `Except Err`
+         monad (`do`-notation); raising sub-expressions are bound (`let t ← ..`) in Python's evaluation order
+         (left to right, arguments before the call) and are refused in lazily evaluated positions (branches of a
+         conditional expression, right operands of and/or).
+
+STATEMENTS  assignment to a local name (one fresh Lean name per assignment), augmented assignment, `if/elif/else`
+  (one conditional `let` per variable assigned in it; a branch that returns/raises makes the rest of the block the
+  other branch), `for` over a literal tuple (unrolled), `return`, `raise`, `pass`, docstrings,
+  `with self.<..lock>:` (transparent: sequential semantics only), `self.attr = e` (functional update of the
+  symbolic record).  Conditions that fold to a constant (`isinstance(other, SameClass)`, `len(x) != 6` with a
+  known length) select the live branch at translation time.
+
+EXPRESSIONS  + - * on ints; `// %` by a positive literal (Int: Lean `/ %` are Euclidean = floor for a positive
+  divisor); `<< >>` by a non-negative literal (Nat: `<<< >>>`; Int: `* 2^k`, `/ 2^k` = arithmetic shift);
+  `& | ^` on Nat (`&&& ||| ^^^`); `x & (2^k-1)` on an Int -> `(x % 2^k).toNat` (Python's two's-complement
+  semantics of `&` with a non-negative mask); comparisons (chains allowed); `min`/`max`/`int`/`bool`/`len`;
+  conditional expressions; closed constant expressions are evaluated by Python (`2**16 - 1`, `4 + 3*8`).
+  A constant that Python computes as a float (`2**32/2`) is accepted only if it is integral AND only as an operand
+  of a comparison (Python compares int with float exactly); any other float arithmetic is refused.
+  Module-level int constants are read from the function's globals (re-read on every run).
+  CALLS: a function/method of the job list -> a call of the extracted Lean definition (a skipped callee skips the
+  caller); any other module-level function, enum method or method of a known record class is inlined
+  (arguments bound first; literal arguments propagate, e.g. `_to_twos_complement(x, 32)`).
+
+LENGTH FACTS  after `if len(x) < N: raise ..` the translator records `len(x) >= N` for the rest of the block;
+  slices of such a value with upper bound <= N, `to_bytes(n, ..)` results and literals have exactly known length.
+  These facts justify `b[k]` and fold `len(..)` tests.  Nothing else is assumed about lengths.
+
+ASSUMPTIONS (stated in design_notes/EXTRACT.md): `other`/`__o` of a binary operator is an instance of the same
+class (`isinstance` folds to True; the foreign-type branch is not translated); `cls` is the class itself;
+locks have no sequential effect; parameter types are as declared in the job list.
 """
 from __future__ import annotations
 
 import ast
+import dataclasses
+import enum
 import inspect
+import re
 import textwrap
+
+NAT, INT, BOOL, BYTES = "Nat", "Int", "Bool", "Bytes"
 
 
 class Unsupported(Exception):
     pass
 
 
-class Tr:
-    def __init__(self, enums, ret_fields=None):
-        self.enums = enums            # {"LTbase": {"FIFTY_MILLISECONDS": 0, ...}}
-        self.ret_fields = ret_fields  # for `return Cls(a=.., b=..)`: ordered keyword names to emit as a tuple
-        self.lets = []
-        self.counter = {}
+class NeedMonad(Exception):
+    pass
 
-    # ------------------------------------------------------------------ expressions
+
+def is_enum(t):
+    return isinstance(t, tuple) and t[0] == "enum"
+
+
+def is_rec(t):
+    return isinstance(t, tuple) and t[0] == "rec"
+
+
+def E(name):
+    return ("enum", name)
+
+
+def R(name):
+    return ("rec", name)
+
+
+class Val:
+    """a scalar / bytes value: Lean text + type (+ what is known at translation time)"""
+
+    def __init__(self, text, ty, const=None, fconst=False, prop=False, blen=None, minlen=0):
+        self.text, self.ty, self.const, self.fconst, self.prop = text, ty, const, fconst, prop
+        self.blen = blen                      # exact length (bytes)
+        self.minlen = blen if blen is not None else minlen
+
+    def with_minlen(self, n):
+        return Val(self.text, self.ty, self.const, self.fconst, self.prop, self.blen, max(self.minlen, n))
+
+
+class RecVal:
+    def __init__(self, cls, fields, src=None):
+        self.cls, self.fields = cls, fields   # fields: ordered {name: Val | RecVal | None(=not a parameter)}
+        self.src = src                        # Lean identifier bound to the whole tuple (result of a call), if any
+
+
+class ClsRef:
+    def __init__(self, name, py):
+        self.name, self.py = name, py
+
+
+class TupVal:
+    def __init__(self, items):
+        self.items = items
+
+
+class Ret:
+    """result of a block that returns: either a symbolic value (straight line) or an expression text"""
+
+    def __init__(self, value=None, text=None, tys=None, m=False, throws=False):
+        self.value, self.text, self.tys, self.m, self.throws = value, text, tys, m, throws
+
+
+@dataclasses.dataclass
+class FuncInfo:
+    func: object
+    lean: str
+    cls: str | None = None            # record class of self / cls
+    kind: str = "method"              # method | classmethod | function
+    self_leaves: list | None = None   # leaves of self passed as parameters (None = all)
+    other: bool = False               # first argument is an object of the same class (binary operator)
+    args: list = dataclasses.field(default_factory=list)   # [(python name, type)]
+    ret: object = NAT
+    monadic: bool | None = None
+    status: str = "pending"
+    text: str = ""
+    params: list = dataclasses.field(default_factory=list)  # [(lean name, scalar type)] after translation
+
+
+class World:
+    EXC = {"DecodeError": "decode", "ValueError": "value", "OverflowError": "overflow"}
+
+    def __init__(self):
+        self.enums = {}      # name -> {member: int}
+        self.enum_py = {}
+        self.records = {}    # name -> (pycls, [(field, type)])
+        self.broken = {}     # record name -> reason
+        self.funcs = {}      # (class name | None, python name) -> FuncInfo
+
+    def add_enum(self, e):
+        vals = {}
+        for m in e:
+            if isinstance(m.value, bool) or not isinstance(m.value, int) or m.value < 0:
+                raise Unsupported(f"enum {e.__name__} has a non-natural value")
+            vals[m.name] = int(m.value)
+        self.enums[e.__name__] = vals
+        self.enum_py[e.__name__] = e
+        return E(e.__name__)
+
+    def add_record(self, pycls, fields, check=True):
+        name = pycls.__name__
+        self.records[name] = (pycls, list(fields))
+        if check:
+            if not dataclasses.is_dataclass(pycls):
+                self.broken[name] = f"{name} is no longer a dataclass"
+            else:
+                real = [f.name for f in dataclasses.fields(pycls)]
+                if real != [f for f, _ in fields]:
+                    self.broken[name] = f"fields of {name} changed: {real}"
+        return R(name)
+
+    def add_func(self, fi: FuncInfo):
+        self.funcs[(fi.cls, fi.func.__name__)] = fi
+        return fi
+
+    # ---- types
+    def leaves(self, ty, prefix=""):
+        """[(leaf parameter name, scalar type)] of a type, records flattened in declared order"""
+        if is_rec(ty):
+            if ty[1] in self.broken:
+                raise Unsupported(self.broken[ty[1]])
+            out = []
+            for f, t in self.records[ty[1]][1]:
+                out += self.leaves(t, (prefix + "_" if prefix else "") + f)
+            return out
+        return [(prefix, ty)]
+
+    def lean_ty(self, ty):
+        if is_rec(ty):
+            return " × ".join(self.lean_scalar(t) for _, t in self.leaves(ty))
+        return self.lean_scalar(ty)
+
+    @staticmethod
+    def lean_scalar(t):
+        return "Nat" if is_enum(t) else {NAT: "Nat", INT: "Int", BOOL: "Bool", BYTES: "Bytes"}[t]
+
+
+IDENT = re.compile(r"[A-Za-z_][\w']*(\.[12])*\Z")
+LEAN_KEYWORDS = {"at", "end", "from", "fun", "open", "in", "do", "then", "else", "if", "let", "have", "show", "by",
+                 "with", "match", "where", "def", "theorem", "namespace", "section", "import", "instance", "class",
+                 "structure", "inductive", "deriving", "return", "for", "unless", "try", "catch", "finally", "mut",
+                 "Type", "Prop", "Sort", "using", "variable", "universe", "abbrev", "macro", "syntax", "local", "set"}
+
+
+def ident(name):
+    return name + "'" if name in LEAN_KEYWORDS else name
+
+
+def lit(c, ty=None):
+    if ty is None:
+        ty = NAT if c >= 0 else INT
+    return Val(f"({c} : {ty})", ty, const=c)
+
+
+def numty(t):
+    return t in (NAT, INT)
+
+
+class Tr:
+    def __init__(self, world, monadic=False, globs=None):
+        self.w = world
+        self.monadic = monadic
+        self.globs = globs or {}
+        self.lets = []            # [(":=" | "←", name, rhs)]
+        self.counter = {}
+        self.lazy = False
+        self.depth = 0
+        self.ret_ty = None        # declared result type of the job (None while inlining)
+
+    def child(self):
+        t = Tr(self.w, self.monadic, self.globs)
+        t.counter, t.lazy, t.depth, t.ret_ty = self.counter, self.lazy, self.depth, self.ret_ty
+        return t
+
+    # ------------------------------------------------------------------ helpers
+    def fresh(self, name):
+        name = ident(name)
+        k = self.counter.get(name, 0) + 1
+        self.counter[name] = k
+        return f"{name}_{k}"
+
+    def effect(self, rhs, hint="tmp"):
+        """bind the result of a raising construct (rhs : Except Err T) in evaluation order"""
+        if self.lazy:
+            raise Unsupported("raising construct in a lazily evaluated position")
+        if not self.monadic:
+            raise NeedMonad()
+        v = self.fresh(hint)
+        self.lets.append(("←", v, rhs))
+        return v
+
+    @staticmethod
+    def render(lets):
+        return [f"let {n} {k} {r}" for k, n, r in lets]
+
+    @classmethod
+    def wrap(cls, lets, result, m=False):
+        if not lets:
+            return result
+        if m:
+            return "do " + "; ".join(cls.render(lets) + [result])
+        if any(k == "←" for k, _, _ in lets):
+            raise Unsupported("internal: effect in a pure block")
+        return "; ".join(cls.render(lets) + [result])
+
     def const_eval(self, node):
+        """closed constant sub-expression (no names) evaluated by Python"""
+        for sub in ast.walk(node):
+            if isinstance(sub, (ast.Name, ast.Attribute, ast.Call, ast.Subscript)):
+                return None
         try:
             v = eval(compile(ast.Expression(node), "<c>", "eval"), {"__builtins__": {}}, {})
         except Exception:
@@ -39,180 +285,1057 @@ class Tr:
         if isinstance(v, bool):
             return None
         if isinstance(v, int):
-            return v
-        if isinstance(v, float) and v == int(v):
-            return int(v)
+            return lit(v)
+        if isinstance(v, float) and v == int(v) and abs(v) < 2 ** 1000:
+            x = lit(int(v))
+            x.fconst = True
+            return x
         return None
 
-    def expr(self, n, env):
-        c = self.const_eval(n) if not isinstance(n, ast.Name) else None
+    def as_num(self, v, what="operand"):
+        if isinstance(v, Val):
+            if v.ty in (NAT, INT):
+                return v
+            if is_enum(v.ty):
+                raise Unsupported(f"enum member used as a number ({what})")
+            if v.ty == BOOL:
+                if v.const is not None:
+                    return lit(1 if v.const else 0)
+                return Val(f"(b2n {self.to_bool(v)})", NAT)
+        raise Unsupported(f"non-numeric {what}")
+
+    @staticmethod
+    def as_int(v):
+        if v.ty == INT:
+            return v
+        if v.const is not None:
+            return lit(v.const, INT)
+        if IDENT.match(v.text):
+            return Val(f"({v.text} : Int)", INT)
+        return Val(f"(({v.text} : Nat) : Int)", INT)
+
+    def nofloat(self, v):
+        if v.fconst:
+            raise Unsupported("float constant outside a comparison")
+        return v
+
+    @staticmethod
+    def to_prop(v):
+        if v.ty != BOOL:
+            raise Unsupported("internal: to_prop")
+        if v.const is not None:
+            return "True" if v.const else "False"
+        return v.text if v.prop else f"({v.text} = true)"
+
+    @staticmethod
+    def to_bool(v):
+        if v.const is not None:
+            return "true" if v.const else "false"
+        return f"(decide {v.text})" if v.prop else v.text
+
+    def to_cond(self, v):
+        """Python truthiness of a value used as a condition -> BOOL Val (prop)"""
+        if isinstance(v, Val):
+            if v.ty == BOOL:
+                return v
+            if v.ty in (NAT, INT):
+                if v.const is not None and not v.fconst:
+                    return Val("", BOOL, const=bool(v.const))
+                return Val(f"({v.text} ≠ 0)", BOOL, prop=True)
+            if v.ty == BYTES:
+                return Val(f"({v.text} ≠ [])", BOOL, prop=True)
+        raise Unsupported("truthiness of a non-int value")
+
+    def bind(self, name, v):
+        """let-bind a scalar value under a fresh name derived from `name`"""
+        n = self.fresh(name)
+        text = self.to_bool(v) if v.ty == BOOL else v.text
+        self.lets.append((":=", n, text))
+        return Val(n, v.ty, v.const, v.fconst, False, v.blen, v.minlen)
+
+    # ------------------------------------------------------------------ records
+    def rec_from_params(self, ty, prefix, allowed=None, lean_prefix=""):
+        pycls, fields = self.w.records[ty[1]]
+        if ty[1] in self.w.broken:
+            raise Unsupported(self.w.broken[ty[1]])
+        out = {}
+        for f, t in fields:
+            path = (prefix + "_" if prefix else "") + f
+            if is_rec(t):
+                out[f] = self.rec_from_params(t, path, allowed, lean_prefix)
+            elif allowed is not None and path not in allowed:
+                out[f] = None
+            else:
+                out[f] = Val(ident(lean_prefix + path), t)
+        return RecVal(ty[1], out)
+
+    def flatten(self, v):
+        if isinstance(v, RecVal):
+            out = []
+            for f, x in v.fields.items():
+                if x is None:
+                    raise Unsupported(f"attribute {f} of {v.cls} is not a parameter of this function")
+                out += self.flatten(x)
+            return out
+        if isinstance(v, TupVal):
+            out = []
+            for x in v.items:
+                out += self.flatten(x)
+            return out
+        if isinstance(v, Val):
+            return [v]
+        raise Unsupported("value cannot be flattened")
+
+    def rec_from_tuple(self, text, ty):
+        """symbolic value of type `ty` from a Lean tuple expression bound to the identifier `text`"""
+        lv = self.w.leaves(ty)
+        n = len(lv)
+        it = iter(range(n))
+
+        def proj(i):
+            if n == 1:
+                return text
+            return text + ".2" * i + (".1" if i < n - 1 else "")
+
+        def build(t):
+            if is_rec(t):
+                return RecVal(t[1], {f: build(ft) for f, ft in self.w.records[t[1]][1]})
+            i = next(it)
+            return Val(proj(i), t, blen=None)
+        v = build(ty)
+        if isinstance(v, RecVal):
+            v.src = text
+        return v
+
+    def coerce(self, v, ty, what):
+        """value `v` used where declared type `ty` is expected"""
+        if is_rec(ty):
+            if isinstance(v, RecVal) and v.cls == ty[1]:
+                return v
+            raise Unsupported(f"{what}: expected a {ty[1]}")
+        if not isinstance(v, Val):
+            raise Unsupported(f"{what}: expected a scalar")
+        if v.fconst:
+            raise Unsupported("float constant outside a comparison")
+        if v.ty == ty:
+            return v
+        if is_enum(ty) and (is_enum(v.ty) or v.ty == NAT):
+            return Val(v.text, ty, v.const)
+        if ty == NAT and is_enum(v.ty):
+            return Val(v.text, NAT, v.const)
+        if ty == INT and (v.ty == NAT or is_enum(v.ty)):
+            return self.as_int(Val(v.text, NAT, v.const))
+        if ty == NAT and v.ty == BOOL:
+            return self.as_num(v)
+        if ty == BOOL and v.ty == BOOL:
+            return v
+        raise Unsupported(f"{what}: a value of type {v.ty} where {ty} is declared")
+
+    def construct(self, cref, args, kwargs):
+        name = cref.name
+        if name in self.w.broken:
+            raise Unsupported(self.w.broken[name])
+        pycls, fields = self.w.records[name]
+        given = {}
+        for (f, _), a in zip(fields, args):
+            given[f] = a
+        if len(args) > len(fields):
+            raise Unsupported("too many constructor arguments")
+        for k, v in kwargs.items():
+            if k in given or k not in dict(fields):
+                raise Unsupported(f"constructor argument {k}")
+            given[k] = v
+        out = {}
+        for f, t in fields:
+            if f in given:
+                out[f] = self.coerce(given[f], t, f"{name}.{f}")
+            else:
+                out[f] = self.default(pycls, f, t)
+        rv = RecVal(name, out)
+        post = pycls.__dict__.get("__post_init__")
+        if post is not None:
+            r = self.inline(post, [rv], {})
+            if r is not None:
+                raise Unsupported("__post_init__ returns")
+        return rv
+
+    def default(self, pycls, f, t):
+        if not dataclasses.is_dataclass(pycls):
+            raise Unsupported(f"no default for {pycls.__name__}.{f}")
+        fld = {x.name: x for x in dataclasses.fields(pycls)}[f]
+        if fld.default is not dataclasses.MISSING:
+            d = fld.default
+        elif fld.default_factory is not dataclasses.MISSING:
+            d = fld.default_factory()
+        else:
+            raise Unsupported(f"missing constructor argument {f}")
+        return self.py_value(d, t, f"default of {pycls.__name__}.{f}")
+
+    def py_value(self, d, t, what):
+        """a concrete Python value (dataclass default) as a symbolic value of type t"""
+        if is_rec(t):
+            pycls, fields = self.w.records[t[1]]
+            if type(d) is not pycls:
+                raise Unsupported(what)
+            return RecVal(t[1], {f: self.py_value(getattr(d, f), ft, what) for f, ft in fields})
+        if is_enum(t):
+            if isinstance(d, enum.Enum) and type(d).__name__ in self.w.enums:
+                # a field declared with one enum may hold members of a sibling enum: only the value matters
+                return Val(f"({int(d.value)} : Nat)", t, const=int(d.value))
+            raise Unsupported(what)
+        if t == BOOL and isinstance(d, bool):
+            return Val("true" if d else "false", BOOL, const=d)
+        if t in (NAT, INT) and isinstance(d, int) and not isinstance(d, bool):
+            if t == NAT and d < 0:
+                raise Unsupported(what)
+            return lit(d, t)
+        if t == BYTES and isinstance(d, (bytes, bytearray)):
+            return Val("[" + ", ".join(str(b) for b in d) + "]", BYTES, blen=len(d))
+        raise Unsupported(what)
+
+    # ------------------------------------------------------------------ calls
+    def call_registered(self, fi, recv, other, args):
+        if not fi.status.startswith("extracted"):
+            raise Unsupported(f"callee {fi.lean} not extracted ({fi.status})")
+        parts = []
+        if fi.kind == "method":
+            for (pname, pty), v in zip(self.w.leaves(R(fi.cls)), self.flatten(recv)):
+                if fi.self_leaves is None or pname in fi.self_leaves:
+                    parts.append(self.coerce(v, pty, pname))
+        if fi.other:
+            if not (isinstance(other, RecVal) and other.cls == fi.cls):
+                raise Unsupported("operator argument of another class")
+            for (pname, pty), v in zip(self.w.leaves(R(fi.cls)), self.flatten(other)):
+                if fi.self_leaves is None or pname in fi.self_leaves:
+                    parts.append(self.coerce(v, pty, pname))
+        if len(args) != len(fi.args):
+            raise Unsupported(f"call of {fi.lean} with {len(args)} arguments")
+        for (aname, aty), v in zip(fi.args, args):
+            if is_rec(aty):
+                parts += [self.coerce(x, t, aname) for (n, t), x in zip(self.w.leaves(aty), self.flatten(self.coerce(v, aty, aname)))]
+            else:
+                parts.append(self.coerce(v, aty, aname))
+        text = "(" + " ".join([fi.lean] + [self.to_bool(p) if p.ty == BOOL else p.text for p in parts]) + ")"
+        if fi.monadic:
+            t = self.effect(text, "r")
+        else:
+            t = self.fresh("r")
+            self.lets.append((":=", t, text))
+        if is_rec(fi.ret):
+            return self.rec_from_tuple(t, fi.ret)
+        return Val(t, fi.ret, blen=getattr(fi, "ret_blen", None))
+
+    def inline(self, pyfunc, pos, kw):
+        """translate the body of `pyfunc` in place with its parameters bound to the given values; returns the
+        symbolic result (None if the function does not return a value)"""
+        if self.depth > 6:
+            raise Unsupported("call depth")
+        if isinstance(pyfunc, (classmethod, staticmethod)):
+            pyfunc = pyfunc.__func__
+        try:
+            node = ast.parse(textwrap.dedent(inspect.getsource(pyfunc))).body[0]
+        except (OSError, TypeError):
+            raise Unsupported(f"no source for {getattr(pyfunc, '__name__', pyfunc)}")
+        check_decorators(node)
+        a = node.args
+        if a.vararg or a.kwarg or a.kwonlyargs or a.posonlyargs:
+            raise Unsupported("signature")
+        names = [x.arg for x in a.args]
+        env = {}
+        if len(pos) > len(names):
+            raise Unsupported("too many arguments")
+        for n, v in zip(names, pos):
+            env[n] = v
+        for k, v in kw.items():
+            if k in env or k not in names:
+                raise Unsupported(f"argument {k}")
+            env[k] = v
+        ndef = len(a.defaults)
+        for i, n in enumerate(names):
+            if n not in env:
+                j = i - (len(names) - ndef)
+                if j < 0:
+                    raise Unsupported(f"missing argument {n}")
+                env[n] = self.ev(a.defaults[j], {})
+        saved = (self.globs, self.ret_ty, self.depth)
+        self.globs, self.ret_ty, self.depth = getattr(pyfunc, "__globals__", self.globs), None, self.depth + 1
+        try:
+            r = self.block(node.body, env)
+        finally:
+            self.globs, self.ret_ty, self.depth = saved
+        if r is None:
+            return None
+        if r.value is not None:
+            return r.value
+        if r.throws and r.tys is None:
+            raise Unsupported("inlined function always raises")
+        # an if-expression with returns in its branches: bind it
+        if r.m:
+            t = self.effect("(" + r.text + ")", "r")
+        else:
+            t = self.fresh("r")
+            self.lets.append((":=", t, "(" + r.text + ")"))
+        return self.value_from_flat(t, r.tys)
+
+    def value_from_flat(self, t, tys):
+        if isinstance(tys, tuple) and tys and tys[0] == "rec":
+            return self.rec_from_tuple(t, tys)
+        if isinstance(tys, list):
+            if len(tys) == 1:
+                return Val(t, tys[0])
+            n = len(tys)
+            return TupVal([Val(t + ".2" * i + (".1" if i < n - 1 else ""), ty) for i, ty in enumerate(tys)])
+        return Val(t, tys)
+
+    # ------------------------------------------------------------------ expressions
+    def resolve_global(self, name):
+        if name not in self.globs:
+            import builtins
+            if hasattr(builtins, name):
+                return getattr(builtins, name)
+            raise Unsupported(f"unknown name {name}")
+        return self.globs[name]
+
+    def class_ref(self, obj):
+        if isinstance(obj, type):
+            if issubclass(obj, enum.Enum):
+                if obj.__name__ not in self.w.enums:
+                    self.w.add_enum(obj)
+                return ClsRef(obj.__name__, obj)
+            if obj.__name__ in self.w.records and self.w.records[obj.__name__][0] is obj:
+                return ClsRef(obj.__name__, obj)
+        return None
+
+    def ev(self, n, env):
+        c = self.const_eval(n)
         if c is not None:
-            return f"({c} : Int)"
+            return c
         if isinstance(n, ast.Constant):
             if isinstance(n.value, bool):
-                return "True" if n.value else "False"
+                return Val("", BOOL, const=n.value)
+            if isinstance(n.value, bytes):
+                return Val("[" + ", ".join(str(b) for b in n.value) + "]", BYTES, blen=len(n.value))
             raise Unsupported(f"constant {n.value!r}")
         if isinstance(n, ast.Name):
             if n.id in env:
                 return env[n.id]
-            raise Unsupported(f"unknown name {n.id}")
+            g = self.resolve_global(n.id)
+            if isinstance(g, bool):
+                return Val("", BOOL, const=g)
+            if isinstance(g, int):
+                return lit(g)
+            cr = self.class_ref(g)
+            if cr is not None:
+                return cr
+            raise Unsupported(f"global {n.id} is not an int constant / known class")
         if isinstance(n, ast.Attribute):
-            # self.x / self.x.value / other.x / Enum.MEMBER / Enum.MEMBER.value
-            if isinstance(n.value, ast.Name) and n.value.id in ("self", "__o", "other"):
-                key = ("o_" if n.value.id != "self" else "") + n.attr
-                if key in env:
-                    return env[key]
-                raise Unsupported(f"unknown attribute {n.value.id}.{n.attr}")
-            if n.attr == "value":
-                return self.expr(n.value, env)
-            if isinstance(n.value, ast.Name) and n.value.id in self.enums:
-                return f"({self.enums[n.value.id][n.attr]} : Int)"
-            raise Unsupported(ast.dump(n))
+            base = self.ev(n.value, env)
+            if isinstance(base, RecVal):
+                if n.attr not in base.fields:
+                    raise Unsupported(f"unknown attribute {base.cls}.{n.attr}")
+                v = base.fields[n.attr]
+                if v is None:
+                    raise Unsupported(f"attribute {n.attr} of {base.cls} is not a parameter of this function")
+                return v
+            if isinstance(base, ClsRef) and base.name in self.w.enums:
+                if n.attr not in self.w.enums[base.name]:
+                    raise Unsupported(f"{base.name}.{n.attr}")
+                c = self.w.enums[base.name][n.attr]
+                return Val(f"({c} : Nat)", E(base.name), const=c)
+            if isinstance(base, Val) and is_enum(base.ty) and n.attr == "value":
+                return Val(base.text, NAT, base.const)
+            raise Unsupported(f"attribute .{n.attr}")
         if isinstance(n, ast.BinOp):
-            a, b = self.expr(n.left, env), self.expr(n.right, env)
-            op = type(n.op)
-            if op in (ast.Add, ast.Sub, ast.Mult):
-                return f"({a} {'+' if op is ast.Add else '-' if op is ast.Sub else '*'} {b})"
-            rc = self.const_eval(n.right)
-            if rc is None:
-                import re as _re
-                m = _re.fullmatch(r"\((\d+) : Int\)", b)   # a name bound to a literal (unrolled loop variable)
-                if m:
-                    rc = int(m.group(1))
-            if op in (ast.FloorDiv, ast.Mod):
-                if rc is None or rc <= 0:
-                    raise Unsupported("// or % by a non-literal / non-positive divisor")
-                return f"({a} {'/' if op is ast.FloorDiv else '%'} {b})"
-            if op in (ast.LShift, ast.RShift):
-                if rc is None or rc < 0:
-                    raise Unsupported("shift by non-literal")
-                return f"({a} * {2 ** rc})" if op is ast.LShift else f"({a} / {2 ** rc})"
-            if op is ast.BitAnd and rc is not None and rc >= 0 and (rc + 1) & rc == 0:
-                return f"({a} % {rc + 1})"
-            raise Unsupported(f"operator {op.__name__}")
-        if isinstance(n, ast.Compare) and len(n.ops) == 1:
-            a, b = self.expr(n.left, env), self.expr(n.comparators[0], env)
-            sym = {ast.Lt: "<", ast.LtE: "≤", ast.Gt: ">", ast.GtE: "≥", ast.Eq: "=", ast.NotEq: "≠"}.get(type(n.ops[0]))
-            if sym is None:
-                raise Unsupported("comparison")
-            return f"({a} {sym} {b})"
+            return self.binop(type(n.op), self.ev(n.left, env), self.ev(n.right, env))
+        if isinstance(n, ast.Compare):
+            vals = [self.ev(n.left, env)] + [self.ev(c, env) for c in n.comparators]
+            props = [self.compare(type(op), a, b) for op, a, b in zip(n.ops, vals, vals[1:])]
+            return self.conj(props, True)
         if isinstance(n, ast.BoolOp):
-            parts = [self.expr(v, env) for v in n.values]
-            return "(" + (" ∧ " if isinstance(n.op, ast.And) else " ∨ ").join(parts) + ")"
-        if isinstance(n, ast.UnaryOp) and isinstance(n.op, ast.Not):
-            return f"(¬ {self.expr(n.operand, env)})"
-        if isinstance(n, ast.UnaryOp) and isinstance(n.op, ast.USub):
-            return f"(- {self.expr(n.operand, env)})"
+            first = self.ev(n.values[0], env)
+            rest = [self.lazy_ev(v, env) for v in n.values[1:]]
+            vals = [first] + rest
+            for v in vals:
+                if not (isinstance(v, Val) and v.ty == BOOL):
+                    raise Unsupported("and/or on non-bool operands")
+            return self.conj(vals, isinstance(n.op, ast.And))
+        if isinstance(n, ast.UnaryOp):
+            v = self.ev(n.operand, env)
+            if isinstance(n.op, ast.Not):
+                c = self.to_cond(v)
+                if c.const is not None:
+                    return Val("", BOOL, const=not c.const)
+                return Val(f"(¬ {self.to_prop(c)})", BOOL, prop=True)
+            if isinstance(n.op, ast.USub):
+                v = self.nofloat(self.as_num(v))
+                if v.const is not None:
+                    return lit(-v.const)
+                return Val(f"(- {self.as_int(v).text})", INT)
+            raise Unsupported("unary operator")
         if isinstance(n, ast.IfExp):
-            return f"(if {self.expr(n.test, env)} then {self.expr(n.body, env)} else {self.expr(n.orelse, env)})"
-        if isinstance(n, ast.Call) and isinstance(n.func, ast.Name):
-            f = n.func.id
-            args = [self.expr(a, env) for a in n.args]
-            if f in ("min", "max") and len(args) == 2:
-                return f"({f} {args[0]} {args[1]})"
-            if f == "int" and len(args) == 1:
-                return args[0]
-            if f == "isinstance":
-                return "True"
-            if self.ret_fields and n.keywords:
-                kw = {k.arg: self.expr(k.value, env) for k in n.keywords}
-                return "(" + ", ".join(kw[k] for k in self.ret_fields) + ")"
-            raise Unsupported(f"call {f}")
+            c = self.to_cond(self.ev(n.test, env))
+            if c.const is not None:
+                return self.ev(n.body if c.const else n.orelse, env)
+            t1, t2 = self.child(), self.child()
+            t1.lazy = t2.lazy = True
+            a, b = t1.ev(n.body, env), t2.ev(n.orelse, env)
+            a, b = self.unify(a, b)
+            ta = a.text if a.ty != BOOL else self.to_bool(a)
+            tb = b.text if b.ty != BOOL else self.to_bool(b)
+            return Val(f"(if {self.to_prop(c)} then ({self.wrap(t1.lets, ta)}) else ({self.wrap(t2.lets, tb)}))", a.ty)
+        if isinstance(n, ast.Call):
+            return self.call(n, env)
+        if isinstance(n, ast.Subscript):
+            return self.subscript(n, env)
         if isinstance(n, ast.Tuple):
-            return "(" + ", ".join(self.expr(e, env) for e in n.elts) + ")"
+            return TupVal([self.ev(e, env) for e in n.elts])
         raise Unsupported(ast.dump(n)[:80])
 
-    # ------------------------------------------------------------------ statements
-    def fresh(self, name):
-        k = self.counter.get(name, 0) + 1
-        self.counter[name] = k
-        return f"{name}_{k}"
+    def lazy_ev(self, n, env):
+        t = self.child()
+        t.lazy = True
+        v = t.ev(n, env)
+        if t.lets:
+            if not isinstance(v, Val):
+                raise Unsupported("lazy operand")
+            text = self.to_prop(v) if v.ty == BOOL else v.text
+            return Val("(" + self.wrap(t.lets, text) + ")", v.ty, v.const, prop=(v.ty == BOOL))
+        return v
 
-    def assign(self, name, rhs, env):
-        v = self.fresh(name)
-        self.lets.append(f"let {v} := {rhs}")
-        env[name] = v
+    def unify(self, a, b):
+        if not (isinstance(a, Val) and isinstance(b, Val)):
+            raise Unsupported("conditional expression over non-scalar values")
+        self.nofloat(a), self.nofloat(b)
+        if a.ty == b.ty:
+            if a.ty == BYTES:
+                bl = a.blen if a.blen == b.blen else None
+                return (Val(a.text, BYTES, blen=bl, minlen=min(a.minlen, b.minlen)),
+                        Val(b.text, BYTES, blen=bl, minlen=min(a.minlen, b.minlen)))
+            return a, b
+        if numty(a.ty) and numty(b.ty):
+            return self.as_int(a), self.as_int(b)
+        if (is_enum(a.ty) or a.ty == NAT) and (is_enum(b.ty) or b.ty == NAT):
+            return Val(a.text, NAT), Val(b.text, NAT)
+        raise Unsupported(f"branches of different types {a.ty} / {b.ty}")
+
+    def conj(self, vals, is_and):
+        parts = []
+        for v in vals:
+            if v.const is not None:
+                if v.const == is_and:
+                    continue           # neutral element
+                return Val("", BOOL, const=not is_and)
+            parts.append(self.to_prop(v))
+        if not parts:
+            return Val("", BOOL, const=is_and)
+        if len(parts) == 1:
+            return Val(parts[0], BOOL, prop=True)
+        return Val("(" + (" ∧ " if is_and else " ∨ ").join(parts) + ")", BOOL, prop=True)
+
+    def compare(self, op, a, b):
+        sym = {ast.Lt: "<", ast.LtE: "≤", ast.Gt: ">", ast.GtE: "≥", ast.Eq: "=", ast.NotEq: "≠"}.get(op)
+        if sym is None:
+            raise Unsupported("comparison operator")
+        if not (isinstance(a, Val) and isinstance(b, Val)):
+            raise Unsupported("comparison of non-scalar values")
+        if is_enum(a.ty) or is_enum(b.ty):
+            if a.ty != b.ty or sym not in ("=", "≠"):
+                raise Unsupported("comparison of an enum member with a value of another type")
+            a, b = Val(a.text, NAT, a.const), Val(b.text, NAT, b.const)
+        if a.ty == BYTES or b.ty == BYTES:
+            if a.ty != b.ty or sym not in ("=", "≠"):
+                raise Unsupported("bytes comparison")
+            return Val(f"({a.text} {sym} {b.text})", BOOL, prop=True)
+        if a.ty == BOOL and b.ty == BOOL and sym in ("=", "≠"):
+            if a.const is not None and b.const is not None:
+                return Val("", BOOL, const=(a.const == b.const) == (sym == "="))
+            return Val(f"({self.to_bool(a)} {sym} {self.to_bool(b)})", BOOL, prop=True)
+        a, b = self.as_num(a, "comparison"), self.as_num(b, "comparison")
+        if a.const is not None and b.const is not None:
+            r = {"<": a.const < b.const, "≤": a.const <= b.const, ">": a.const > b.const, "≥": a.const >= b.const,
+                 "=": a.const == b.const, "≠": a.const != b.const}[sym]
+            return Val("", BOOL, const=r)
+        if a.ty != b.ty:
+            a, b = self.as_int(a), self.as_int(b)
+        return Val(f"({a.text} {sym} {b.text})", BOOL, prop=True)
+
+    PYOPS = {ast.Add: lambda a, b: a + b, ast.Sub: lambda a, b: a - b, ast.Mult: lambda a, b: a * b,
+             ast.FloorDiv: lambda a, b: a // b, ast.Mod: lambda a, b: a % b, ast.LShift: lambda a, b: a << b,
+             ast.RShift: lambda a, b: a >> b, ast.BitAnd: lambda a, b: a & b, ast.BitOr: lambda a, b: a | b,
+             ast.BitXor: lambda a, b: a ^ b, ast.Pow: lambda a, b: a ** b}
+
+    def binop(self, op, a, b):
+        if isinstance(a, Val) and isinstance(b, Val) and a.ty == BYTES and b.ty == BYTES and op is ast.Add:
+            bl = a.blen + b.blen if a.blen is not None and b.blen is not None else None
+            return Val(f"({a.text} ++ {b.text})", BYTES, blen=bl, minlen=a.minlen + b.minlen)
+        a, b = self.as_num(a), self.as_num(b)
+        if op is ast.Div and a.const is not None and b.const is not None and b.const != 0:
+            q = a.const / b.const
+            if q == int(q):
+                v = lit(int(q))
+                v.fconst = True
+                return v
+            raise Unsupported("non-integral float constant")
+        self.nofloat(a), self.nofloat(b)
+        if op not in self.PYOPS:
+            raise Unsupported(f"operator {op.__name__}")
+        if a.const is not None and b.const is not None:
+            if op in (ast.FloorDiv, ast.Mod) and b.const <= 0 or op in (ast.LShift, ast.RShift, ast.Pow) and not 0 <= b.const <= 4096:
+                raise Unsupported("constant operation out of range")
+            return lit(self.PYOPS[op](a.const, b.const))
+        both_nat = a.ty == NAT and b.ty == NAT
+        if op in (ast.Add, ast.Mult):
+            s = "+" if op is ast.Add else "*"
+            if both_nat:
+                return Val(f"({a.text} {s} {b.text})", NAT)
+            return Val(f"({self.as_int(a).text} {s} {self.as_int(b).text})", INT)
+        if op is ast.Sub:
+            return Val(f"({self.as_int(a).text} - {self.as_int(b).text})", INT)
+        if op in (ast.FloorDiv, ast.Mod):
+            if b.const is None or b.const <= 0:
+                raise Unsupported("// or % by a non-literal / non-positive divisor")
+            if a.ty == NAT:
+                return Val(f"({a.text} {'/' if op is ast.FloorDiv else '%'} {b.text})", NAT)
+            if op is ast.FloorDiv:
+                return Val(f"({a.text} / ({b.const} : Int))", INT)
+            return Val(f"(({a.text} % ({b.const} : Int)).toNat)", NAT)
+        if op in (ast.LShift, ast.RShift):
+            if b.const is None or b.const < 0:
+                raise Unsupported("shift by a non-literal amount")
+            if a.ty == NAT:
+                return Val(f"({a.text} {'<<<' if op is ast.LShift else '>>>'} {b.const})", NAT)
+            return Val(f"({a.text} {'*' if op is ast.LShift else '/'} ({2 ** b.const} : Int))", INT)
+        if op in (ast.BitAnd, ast.BitOr, ast.BitXor):
+            if both_nat:
+                s = {ast.BitAnd: "&&&", ast.BitOr: "|||", ast.BitXor: "^^^"}[op]
+                return Val(f"({a.text} {s} {b.text})", NAT)
+            if op is ast.BitAnd:
+                for x, m in ((a, b), (b, a)):
+                    if m.const is not None and m.const >= 0 and (m.const + 1) & m.const == 0 and x.ty == INT:
+                        return Val(f"(({x.text} % ({m.const + 1} : Int)).toNat)", NAT)
+            raise Unsupported("bitwise operator on a possibly negative int")
+        raise Unsupported(f"operator {op.__name__} on non-constants")
+
+    def subscript(self, n, env):
+        v = self.ev(n.value, env)
+        if not (isinstance(v, Val) and v.ty == BYTES):
+            raise Unsupported("subscript of a non-bytes value")
+        s = n.slice
+        if isinstance(s, ast.Slice):
+            if s.step is not None:
+                raise Unsupported("slice step")
+            lo = 0 if s.lower is None else self.nat_const(s.lower, env, "slice bound")
+            if s.upper is None:
+                bl = max(0, v.blen - lo) if v.blen is not None else None
+                return Val(f"({v.text}.drop {lo})", BYTES, blen=bl, minlen=max(0, v.minlen - lo))
+            hi = self.nat_const(s.upper, env, "slice bound")
+            if hi < lo:
+                raise Unsupported("slice bounds")
+            if v.blen is not None:
+                bl = max(0, min(hi, v.blen) - min(lo, v.blen))
+                return Val(f"(slice {v.text} {lo} {hi})", BYTES, blen=bl)
+            if v.minlen >= hi:
+                return Val(f"(slice {v.text} {lo} {hi})", BYTES, blen=hi - lo)
+            return Val(f"(slice {v.text} {lo} {hi})", BYTES, minlen=max(0, min(hi, v.minlen) - lo))
+        k = self.nat_const(s, env, "index")
+        if v.minlen <= k:
+            raise Unsupported(f"index {k} not established to be within the length of the bytes value")
+        return Val(f"({v.text}.getD {k} 0)", NAT)
+
+    def nat_const(self, node, env, what):
+        v = self.ev(node, env)
+        if not (isinstance(v, Val) and v.ty == NAT and v.const is not None and not v.fconst):
+            raise Unsupported(f"{what} is not a non-negative literal")
+        return v.const
+
+    def big_endian(self, pos, kw, env):
+        bo = pos[0] if pos else kw.pop("byteorder", None)
+        if not (isinstance(bo, ast.Constant) and bo.value == "big"):
+            raise Unsupported("byte order is not the literal 'big'")
+        signed = False
+        if "signed" in kw:
+            s = kw.pop("signed")
+            if not (isinstance(s, ast.Constant) and isinstance(s.value, bool)):
+                raise Unsupported("signed=")
+            signed = s.value
+        if kw or len(pos) > 1:
+            raise Unsupported("to_bytes/from_bytes arguments")
+        return signed
+
+    def call(self, n, env):
+        f = n.func
+        kwn = {k.arg: k.value for k in n.keywords}
+        if None in kwn or any(isinstance(a, ast.Starred) for a in n.args):
+            raise Unsupported("*args/**kwargs")
+        # ---- int.from_bytes / x.to_bytes
+        if isinstance(f, ast.Attribute) and f.attr == "from_bytes" and isinstance(f.value, ast.Name) and f.value.id == "int" \
+                and "int" not in env:
+            if not n.args:
+                raise Unsupported("from_bytes arguments")
+            b = self.ev(n.args[0], env)
+            signed = self.big_endian(n.args[1:], dict(kwn), env)
+            if not (isinstance(b, Val) and b.ty == BYTES):
+                raise Unsupported("from_bytes of a non-bytes value")
+            if signed:
+                return Val(f"(fromBytesSigned {b.text})", INT)
+            return Val(f"(fromBytesBE {b.text})", NAT)
+        if isinstance(f, ast.Attribute) and f.attr == "to_bytes":
+            x = self.ev(f.value, env)
+            if not (isinstance(x, Val) and x.ty in (NAT, INT)):
+                raise Unsupported("to_bytes of a non-int value")
+            self.nofloat(x)
+            if not n.args and "length" not in kwn:
+                raise Unsupported("to_bytes arguments")
+            kw = dict(kwn)
+            ln = self.nat_const(n.args[0] if n.args else kw.pop("length"), env, "to_bytes length")
+            signed = self.big_endian(n.args[1:], kw, env)
+            if signed:
+                t = self.effect(f"(intToBytesSigned? {ln} {self.as_int(x).text})", "b")
+            elif x.ty == NAT:
+                t = self.effect(f"(toBytes? {ln} {x.text})", "b")
+            else:
+                t = self.effect(f"(intToBytes? {ln} {x.text})", "b")
+            return Val(t, BYTES, blen=ln)
+        # ---- builtins and constructors by name
+        if isinstance(f, ast.Name) and f.id not in env:
+            g = self.resolve_global(f.id)
+            if g in (min, max) and len(n.args) == 2 and not kwn:
+                a, b = (self.nofloat(self.as_num(self.ev(x, env))) for x in n.args)
+                if a.const is not None and b.const is not None:
+                    return lit(g(a.const, b.const))
+                if a.ty != b.ty:
+                    a, b = self.as_int(a), self.as_int(b)
+                return Val(f"({f.id} {a.text} {b.text})", a.ty)
+            if g is int and len(n.args) == 1 and not kwn:
+                return self.nofloat(self.as_num(self.ev(n.args[0], env), "int()"))
+            if g is bool and len(n.args) == 1 and not kwn:
+                v = self.ev(n.args[0], env)
+                if isinstance(v, Val) and v.ty == BOOL:
+                    return v
+                v = self.nofloat(self.as_num(v, "bool()"))
+                if v.const is not None:
+                    return Val("", BOOL, const=bool(v.const))
+                return Val(f"({v.text} != 0)", BOOL)
+            if g is len and len(n.args) == 1 and not kwn:
+                v = self.ev(n.args[0], env)
+                if not (isinstance(v, Val) and v.ty == BYTES):
+                    raise Unsupported("len of a non-bytes value")
+                if v.blen is not None:
+                    return lit(v.blen)
+                return Val(f"{v.text}.length" if IDENT.match(v.text) else f"({v.text}).length", NAT)
+            if g is isinstance and len(n.args) == 2 and not kwn:
+                v = self.ev(n.args[0], env)
+                c = self.ev(n.args[1], env)
+                if isinstance(v, RecVal) and isinstance(c, ClsRef) and c.name in self.w.records:
+                    return Val("", BOOL, const=issubclass(self.w.records[v.cls][0], c.py))
+                raise Unsupported("isinstance")
+            cr = self.class_ref(g)
+            if cr is not None:
+                return self.call_class(cr, n, env)
+            if inspect.isfunction(g):
+                pos = [self.ev(a, env) for a in n.args]
+                kw = {k: self.ev(v, env) for k, v in kwn.items()}
+                key = (None, g.__name__)
+                if key in self.w.funcs and self.w.funcs[key].func is g:
+                    if kw:
+                        raise Unsupported("keyword arguments to an extracted function")
+                    return self.call_registered(self.w.funcs[key], None, None, pos)
+                r = self.inline(g, pos, kw)
+                if r is None:
+                    raise Unsupported(f"{g.__name__} returns nothing")
+                return r
+            raise Unsupported(f"call {f.id}")
+        # ---- methods
+        if isinstance(f, ast.Attribute):
+            recv = self.ev(f.value, env)
+            pos = [self.ev(a, env) for a in n.args]
+            kw = {k: self.ev(v, env) for k, v in kwn.items()}
+            if isinstance(recv, RecVal):
+                key = (recv.cls, f.attr)
+                pycls = self.w.records[recv.cls][0]
+                raw = inspect.getattr_static(pycls, f.attr, None)
+                if raw is None:
+                    raise Unsupported(f"{recv.cls}.{f.attr}")
+                if key in self.w.funcs:
+                    fi = self.w.funcs[key]
+                    if kw:
+                        raise Unsupported("keyword arguments to an extracted function")
+                    if fi.kind == "method":
+                        if fi.other:
+                            return self.call_registered(fi, recv, pos[0] if pos else None, pos[1:])
+                        return self.call_registered(fi, recv, None, pos)
+                    return self.call_registered(fi, None, None, pos)
+                if isinstance(raw, classmethod):
+                    return self.need_value(self.inline(raw, [ClsRef(recv.cls, pycls)] + pos, kw), f.attr)
+                if isinstance(raw, staticmethod):
+                    return self.need_value(self.inline(raw, pos, kw), f.attr)
+                if inspect.isfunction(raw):
+                    return self.need_value(self.inline(raw, [recv] + pos, kw), f.attr)
+                raise Unsupported(f"{recv.cls}.{f.attr} is not a plain method")
+            if isinstance(recv, ClsRef) and recv.name in self.w.records:
+                key = (recv.name, f.attr)
+                raw = inspect.getattr_static(recv.py, f.attr, None)
+                if key in self.w.funcs and self.w.funcs[key].kind != "method":
+                    if kw:
+                        raise Unsupported("keyword arguments to an extracted function")
+                    return self.call_registered(self.w.funcs[key], None, None, pos)
+                if isinstance(raw, classmethod):
+                    return self.need_value(self.inline(raw, [recv] + pos, kw), f.attr)
+                if isinstance(raw, staticmethod):
+                    return self.need_value(self.inline(raw, pos, kw), f.attr)
+                raise Unsupported(f"{recv.name}.{f.attr}")
+            if isinstance(recv, Val) and is_enum(recv.ty):
+                raw = inspect.getattr_static(self.w.enum_py[recv.ty[1]], f.attr, None)
+                if inspect.isfunction(raw):
+                    return self.need_value(self.inline(raw, [recv] + pos, kw), f.attr)
+                raise Unsupported(f"enum method {f.attr}")
+            raise Unsupported(f"method call .{f.attr}")
+        # cls(...) where cls is a bound name
+        if isinstance(f, ast.Name) and isinstance(env.get(f.id), ClsRef):
+            return self.call_class(env[f.id], n, env)
+        raise Unsupported("call")
+
+    @staticmethod
+    def need_value(r, what):
+        if r is None:
+            raise Unsupported(f"{what} returns nothing")
+        return r
+
+    def call_class(self, cr, n, env):
+        pos = [self.ev(a, env) for a in n.args]
+        kw = {k.arg: self.ev(k.value, env) for k in n.keywords}
+        if cr.name in self.w.enums:
+            if len(pos) != 1 or kw:
+                raise Unsupported("enum construction arguments")
+            v = pos[0]
+            if isinstance(v, Val) and is_enum(v.ty) and v.ty[1] == cr.name:
+                return v
+            v = self.nofloat(self.as_num(v, "enum code"))
+            if isinstance(v, Val) and v.ty == BOOL:
+                raise Unsupported("enum construction from a bool")
+            codes = sorted(set(self.w.enums[cr.name].values()))
+            if v.const is not None:
+                if v.const in codes:
+                    return Val(f"({v.const} : Nat)", E(cr.name), const=v.const)
+                t = self.effect("(Except.error Err.value)", "e")
+                return Val(t, E(cr.name))
+            if v.ty != NAT:
+                raise Unsupported("enum construction from a possibly negative int")
+            t = self.effect(f"(enumOf {codes} {v.text})", "e")
+            return Val(t, E(cr.name))
+        return self.construct(cr, pos, kw)
+
+    # ------------------------------------------------------------------ statements
+    def assign(self, name, v, env):
+        if isinstance(v, Val):
+            self.nofloat(v)
+            if v.ty == BOOL and v.const is not None:
+                env[name] = v
+                return
+            env[name] = self.bind(name, v)
+        else:
+            env[name] = v     # records / classes / tuples stay symbolic
+
+    def ret_of(self, v):
+        """a `return <v>`"""
+        if self.ret_ty is not None:
+            if isinstance(self.ret_ty, list):
+                if not (isinstance(v, TupVal) and len(v.items) == len(self.ret_ty)):
+                    raise Unsupported("returned tuple does not match the declared result")
+                v = TupVal([self.coerce(x, t, "result") for x, t in zip(v.items, self.ret_ty)])
+            else:
+                v = self.coerce(v, self.ret_ty, "result")
+        elif isinstance(v, Val):
+            self.nofloat(v)
+        return Ret(value=v)
+
+    def tys_of(self, v):
+        if isinstance(v, RecVal):
+            return R(v.cls)
+        if isinstance(v, TupVal):
+            return [x.ty for x in self.flatten(v)]
+        return v.ty
+
+    def ret_text(self, r, m):
+        """(expression text of a Ret, flat type descriptor); m: as a term of the Except monad"""
+        if r.value is not None:
+            parts = [self.to_bool(x) if x.ty == BOOL else x.text for x in self.flatten(r.value)]
+            t = parts[0] if len(parts) == 1 else "(" + ", ".join(parts) + ")"
+            if isinstance(r.value, RecVal) and r.value.src is not None:
+                t = r.value.src           # the unchanged result of a call: return the tuple itself
+            return (f"pure {t}" if m else t), self.tys_of(r.value)
+        if m and not r.m:
+            return f"pure ({r.text})", r.tys
+        if r.m and not m:
+            raise Unsupported("internal: monadic result in a pure position")
+        return r.text, r.tys
+
+    def same_tys(self, a, b):
+        if a is None:
+            return b
+        if b is None:
+            return a
+        if a != b:
+            raise Unsupported(f"branches return different types ({a} / {b})")
+        return a
 
     def block(self, stmts, env):
-        """returns the Lean expression of a `return` reached unconditionally at the end of the block, or None"""
+        """translates the statements; returns a Ret if the block returns/raises on every path, else None"""
         for i, s in enumerate(stmts):
             if isinstance(s, ast.Expr) and isinstance(s.value, ast.Constant):
                 continue  # docstring
+            if isinstance(s, ast.Pass):
+                continue
             if isinstance(s, ast.Assign) and len(s.targets) == 1 and isinstance(s.targets[0], ast.Name):
-                self.assign(s.targets[0].id, self.expr(s.value, env), env)
+                self.assign(s.targets[0].id, self.ev(s.value, env), env)
+            elif isinstance(s, ast.AnnAssign) and isinstance(s.target, ast.Name) and s.value is not None:
+                self.assign(s.target.id, self.ev(s.value, env), env)
+            elif isinstance(s, ast.Assign) and len(s.targets) == 1 and isinstance(s.targets[0], ast.Attribute):
+                self.assign_attr(s.targets[0], self.ev(s.value, env), env)
             elif isinstance(s, ast.AugAssign) and isinstance(s.target, ast.Name):
-                self.assign(s.target.id, self.expr(ast.BinOp(ast.Name(s.target.id, ast.Load()), s.op, s.value), env), env)
+                if s.target.id not in env:
+                    raise Unsupported("augmented assignment to an unknown name")
+                self.assign(s.target.id, self.binop(type(s.op), env[s.target.id], self.ev(s.value, env)), env)
             elif isinstance(s, ast.Return):
-                return self.expr(s.value, env)
+                if s.value is None:
+                    raise Unsupported("bare return")
+                return self.ret_of(self.ev(s.value, env))
+            elif isinstance(s, ast.Raise):
+                exc = s.exc.func if isinstance(s.exc, ast.Call) else s.exc
+                if not (isinstance(exc, ast.Name) and exc.id in World.EXC) or s.cause is not None:
+                    raise Unsupported("raise of an exception class outside {DecodeError, ValueError, OverflowError}")
+                if self.lazy:
+                    raise Unsupported("raise in a lazily evaluated position")
+                if not self.monadic:
+                    raise NeedMonad()
+                return Ret(text=f"(Except.error Err.{World.EXC[exc.id]})", tys=None, m=True, throws=True)
+            elif isinstance(s, ast.With):
+                for it in s.items:
+                    c = it.context_expr
+                    if it.optional_vars is not None or not (isinstance(c, ast.Attribute) and c.attr.endswith("lock")
+                                                            and isinstance(c.value, ast.Name) and c.value.id == "self"):
+                        raise Unsupported("with-statement other than `with self.<lock>`")
+                r = self.block(s.body, env)
+                if r is not None:
+                    return r
             elif isinstance(s, ast.If):
-                cond = self.expr(s.test, env)
-                e1, e2 = dict(env), dict(env)
-                t1, t2 = Tr(self.enums, self.ret_fields), Tr(self.enums, self.ret_fields)
-                t1.counter = t2.counter = self.counter
-                r1 = t1.block(s.body, e1)
-                r2 = t2.block(s.orelse, e2) if s.orelse else None
-                if r1 is not None or r2 is not None:
-                    # early return(s): the rest of the block is the else-continuation
-                    rest = stmts[i + 1:]
-                    if r1 is None:
-                        r1 = t1.block(rest, e1)
-                    if r2 is None:
-                        r2 = t2.block(rest, e2)
-                    if r1 is None or r2 is None:
-                        raise Unsupported("branch without return")
-                    return f"(if {cond} then ({self.wrap(t1.lets, r1)}) else ({self.wrap(t2.lets, r2)}))"
-                changed = sorted(k for k in set(e1) | set(e2) if e1.get(k) != env.get(k) or e2.get(k) != env.get(k))
-                changed = [k for k in changed if k in e1 and k in e2]   # others are branch-local
-                if len(changed) == 1:
-                    k = changed[0]
-                    self.assign(k, f"(if {cond} then ({self.wrap(t1.lets, e1[k])}) else ({self.wrap(t2.lets, e2[k])}))", env)
-                elif changed:
-                    tup1 = "(" + ", ".join(e1[k] for k in changed) + ")"
-                    tup2 = "(" + ", ".join(e2[k] for k in changed) + ")"
-                    t = self.fresh("t")
-                    self.lets.append(f"let {t} := (if {cond} then ({self.wrap(t1.lets, tup1)}) else ({self.wrap(t2.lets, tup2)}))")
-                    for idx, k in enumerate(changed):
-                        proj = t + ".2" * idx + (".1" if idx < len(changed) - 1 else "")
-                        self.assign(k, proj, env)
+                r = self.if_stmt(s, stmts[i + 1:], env)
+                if r is not None:
+                    return r[0]
             elif isinstance(s, ast.For) and isinstance(s.iter, ast.Tuple):
                 for item in s.iter.elts:
-                    if isinstance(s.target, ast.Tuple) and isinstance(item, ast.Tuple):
+                    if isinstance(s.target, ast.Tuple) and isinstance(item, ast.Tuple) and len(s.target.elts) == len(item.elts):
                         for t, v in zip(s.target.elts, item.elts):
-                            env[t.id] = self.expr(v, env)
+                            if not isinstance(t, ast.Name):
+                                raise Unsupported("for target")
+                            env[t.id] = self.ev(v, env)
                     elif isinstance(s.target, ast.Name):
-                        env[s.target.id] = self.expr(item, env)
+                        env[s.target.id] = self.ev(item, env)
                     else:
                         raise Unsupported("for target")
                     if self.block(s.body, env) is not None:
                         raise Unsupported("return inside for")
-            elif isinstance(s, ast.Pass):
-                continue
+                if s.orelse:
+                    raise Unsupported("for-else")
             else:
-                raise Unsupported(type(s).__name__)
+                raise Unsupported(f"statement {type(s).__name__}")
         return None
 
-    @staticmethod
-    def wrap(lets, result):
-        return "; ".join(lets + [result]) if lets else result
+    def assign_attr(self, target, v, env):
+        if not (isinstance(target.value, ast.Name) and isinstance(env.get(target.value.id), RecVal)):
+            raise Unsupported("attribute assignment")
+        rv = env[target.value.id]
+        if target.attr not in rv.fields or rv.fields[target.attr] is None:
+            raise Unsupported(f"assignment to unknown attribute {target.attr}")
+        fty = dict(self.w.records[rv.cls][1])[target.attr]
+        v = self.coerce(v, fty, f"{rv.cls}.{target.attr}")
+        if isinstance(v, Val):
+            v = self.bind(target.attr, v)
+        fields = dict(rv.fields)
+        fields[target.attr] = v
+        env[target.value.id] = RecVal(rv.cls, fields)
+
+    def length_fact(self, test, env):
+        """`len(x) < N` with x a bytes-valued local name: (name, N)"""
+        if isinstance(test, ast.Compare) and len(test.ops) == 1 and isinstance(test.ops[0], ast.Lt) \
+                and isinstance(test.left, ast.Call) and isinstance(test.left.func, ast.Name) and test.left.func.id == "len" \
+                and "len" not in env and len(test.left.args) == 1 and isinstance(test.left.args[0], ast.Name):
+            x = env.get(test.left.args[0].id)
+            c = self.const_eval(test.comparators[0])
+            if isinstance(x, Val) and x.ty == BYTES and c is not None and not c.fconst and c.const >= 0:
+                return test.left.args[0].id, c.const
+        return None
+
+    def if_stmt(self, s, rest, env):
+        """returns None when control continues after the statement (env updated), else (Ret,)"""
+        cv = self.to_cond(self.ev(s.test, env))
+        if cv.const is not None:
+            r = self.block(s.body if cv.const else s.orelse, env)
+            return None if r is None else (r,)
+        cond = self.to_prop(cv)
+        e1, e2 = dict(env), dict(env)
+        t1, t2 = self.child(), self.child()
+        r1 = t1.block(s.body, e1)
+        fact = self.length_fact(s.test, env)
+        if fact is not None and r1 is not None:
+            e2[fact[0]] = e2[fact[0]].with_minlen(fact[1])     # the body left the function: len(x) >= N from here on
+        r2 = t2.block(s.orelse, e2) if s.orelse else None
+        if r1 is not None or r2 is not None:
+            # early return(s): the rest of the block is the continuation of the branch that did not return
+            if r1 is None:
+                r1 = t1.block(rest, e1)
+            if r2 is None:
+                r2 = t2.block(rest, e2)
+            if r1 is None or r2 is None:
+                raise Unsupported("branch without return")
+            m = r1.m or r2.m or any(k == "←" for k, _, _ in t1.lets + t2.lets)
+            x1, ty1 = t1.ret_text(r1, m)
+            x2, ty2 = t2.ret_text(r2, m)
+            tys = self.same_tys(ty1, ty2)
+            text = f"(if {cond} then ({self.wrap(t1.lets, x1, m)}) else ({self.wrap(t2.lets, x2, m)}))"
+            return (Ret(text=text, tys=tys, m=m, throws=r1.throws and r2.throws),)
+        changed = sorted(k for k in set(e1) | set(e2) if e1.get(k) is not env.get(k) or e2.get(k) is not env.get(k))
+        changed = [k for k in changed if k in e1 and k in e2]   # others are branch-local
+        if not changed:
+            if t1.lets or t2.lets:
+                eff = any(k == "←" for k, _, _ in t1.lets + t2.lets)
+                if eff:   # a raising construct evaluated for its effect only
+                    u = self.fresh("u")
+                    self.lets.append(("←", u, f"(if {cond} then ({self.wrap(t1.lets, 'pure ()', True)}) else ({self.wrap(t2.lets, 'pure ()', True)}))"))
+            return None
+        pairs = []
+        for k in changed:
+            a, b = e1[k], e2[k]
+            if not (isinstance(a, Val) and isinstance(b, Val)):
+                raise Unsupported(f"non-scalar variable {k} assigned in a branch")
+            pairs.append(self.unify(a, b))
+        eff = any(k == "←" for k, _, _ in t1.lets + t2.lets)
+        if eff and (self.lazy or not self.monadic):
+            raise Unsupported("internal: effect")
+
+        def tup(vals):
+            parts = [self.to_bool(x) if x.ty == BOOL else x.text for x in vals]
+            t = parts[0] if len(parts) == 1 else "(" + ", ".join(parts) + ")"
+            return f"pure {t}" if eff else t
+        rhs = f"(if {cond} then ({self.wrap(t1.lets, tup([p[0] for p in pairs]), eff)}) else ({self.wrap(t2.lets, tup([p[1] for p in pairs]), eff)}))"
+        kind = "←" if eff else ":="
+        if len(changed) == 1:
+            k = changed[0]
+            v = self.fresh(k)
+            self.lets.append((kind, v, rhs))
+            a, b = pairs[0]
+            env[k] = Val(v, a.ty, blen=a.blen if a.ty == BYTES and a.blen == b.blen else None,
+                         minlen=min(a.minlen, b.minlen) if a.ty == BYTES else 0)
+        else:
+            t = self.fresh("t")
+            self.lets.append((kind, t, rhs))
+            for idx, k in enumerate(changed):
+                proj = t + ".2" * idx + (".1" if idx < len(changed) - 1 else "")
+                a, b = pairs[idx]
+                v = self.fresh(k)
+                self.lets.append((":=", v, proj))
+                env[k] = Val(v, a.ty, blen=a.blen if a.ty == BYTES and a.blen == b.blen else None,
+                             minlen=min(a.minlen, b.minlen) if a.ty == BYTES else 0)
+        return None
 
 
-def translate(func, lean_name, params, enums=None, ret_fields=None, ty="Int"):
-    """func: Python function object; params: ordered {lean parameter name: python spelling} where the python
-    spelling is a local/argument name or `self.attr` (given as 'attr').  Returns Lean source of the definition."""
-    src = textwrap.dedent(inspect.getsource(func))
+# ---------------------------------------------------------------------------------------------------------------
+
+
+def check_decorators(node):
+    """only decorators without effect on the call semantics are accepted"""
+    if not isinstance(node, ast.FunctionDef):
+        raise Unsupported("not a plain function definition")
+    for d in node.decorator_list:
+        if not (isinstance(d, ast.Name) and d.id in ("classmethod", "staticmethod")):
+            raise Unsupported("decorated function")
+
+
+def translate_job(world: World, fi: FuncInfo) -> str:
+    """Lean source of the definition for job `fi`; sets fi.monadic / fi.params; raises Unsupported"""
+    for monadic in (False, True):
+        try:
+            return _translate(world, fi, monadic)
+        except NeedMonad:
+            if monadic:
+                raise Unsupported("internal: NeedMonad in monadic mode")
+    raise Unsupported("unreachable")
+
+
+def _translate(world, fi, monadic):
+    func = fi.func
+    if isinstance(func, (classmethod, staticmethod)):
+        func = func.__func__
+    func = getattr(func, "__func__", func)
+    try:
+        src = textwrap.dedent(inspect.getsource(func))
+    except (OSError, TypeError):
+        raise Unsupported("no source")
     tree = ast.parse(src).body[0]
-    tr = Tr(enums or {}, ret_fields)
-    env = {p: p for p in params}
-    result = tr.block(tree.body, env)
-    if result is None:
+    if not isinstance(tree, ast.FunctionDef):
+        raise Unsupported("not a function definition")
+    check_decorators(tree)
+    a = tree.args
+    if a.vararg or a.kwarg or a.kwonlyargs or a.posonlyargs or a.defaults:
+        raise Unsupported("signature (defaults / varargs)")
+    names = [x.arg for x in a.args]
+    tr = Tr(world, monadic, func.__globals__)
+    tr.ret_ty = fi.ret
+    env, params = {}, []
+    if fi.kind in ("method", "classmethod"):
+        if not names:
+            raise Unsupported("signature changed")
+        recv, names = names[0], names[1:]
+        if fi.kind == "classmethod":
+            env[recv] = ClsRef(fi.cls, world.records[fi.cls][0])
+            if fi.cls in world.broken:
+                raise Unsupported(world.broken[fi.cls])
+        else:
+            env[recv] = tr.rec_from_params(R(fi.cls), "", fi.self_leaves)
+            params += [(ident(n), t) for n, t in world.leaves(R(fi.cls)) if fi.self_leaves is None or n in fi.self_leaves]
+    if fi.other:
+        if not names:
+            raise Unsupported("signature changed")
+        env[names[0]] = tr.rec_from_params(R(fi.cls), "", fi.self_leaves, "o_")
+        params += [(ident("o_" + n), t) for n, t in world.leaves(R(fi.cls)) if fi.self_leaves is None or n in fi.self_leaves]
+        names = names[1:]
+    if names != [n for n, _ in fi.args]:
+        raise Unsupported(f"signature changed: arguments {names}")
+    taken = {p for p, _ in params}
+    for n, t in fi.args:
+        if is_rec(t):
+            env[n] = tr.rec_from_params(t, n)
+            params += [(ident(p), pt) for p, pt in world.leaves(t, n)]
+        else:
+            ln = ident(n if n not in taken else "a_" + n)
+            env[n] = Val(ln, t)
+            params.append((ln, t))
+    r = tr.block(tree.body, env)
+    if r is None:
         raise Unsupported("no return")
-    args = " ".join(f"({p} : {ty})" for p in params)
-    body = "\n  ".join(tr.lets + [result])
-    text = f"def {lean_name} {args} :=\n  {body}\n"
-    if ty == "Nat":
-        # every value is known to be non-negative (caller's assertion, e.g. header fields): same text over Nat.
-        # Truncated subtraction would differ from Python, so `-` is refused in this mode.
-        if " - " in text or "(- " in text:
-            raise Unsupported("subtraction in Nat mode")
-        text = text.replace(" : Int)", " : Nat)")
-    return text
+    text, tys = tr.ret_text(r, monadic)
+    if r.throws and tys is None:
+        raise Unsupported("function always raises")
+    want = [t for _, t in world.leaves(fi.ret)] if is_rec(fi.ret) else fi.ret
+    got = [t for _, t in world.leaves(tys)] if is_rec(tys) else tys
+    if isinstance(want, list) and len(want) == 1:
+        want = want[0]
+    if isinstance(got, list) and len(got) == 1:
+        got = got[0]
+    if want != got:
+        raise Unsupported(f"result type {got} differs from the declared {want}")
+    if monadic and not (r.m or any(k == "←" for k, _, _ in tr.lets)):
+        raise Unsupported("internal: monadic mode without effect")
+    fi.monadic = monadic
+    fi.params = params
+    rt = world.lean_ty(fi.ret) if not isinstance(fi.ret, list) else " × ".join(world.lean_scalar(t) for t in fi.ret)
+    args = " ".join(f"({p} : {world.lean_scalar(t)})" for p, t in params)
+    head = f"def {fi.lean} {args} : " + (f"Except Err ({rt})" if monadic else rt) + " :=" + (" do" if monadic else "")
+    body = "\n  ".join(Tr.render(tr.lets) + [text])
+    return f"{head}\n  {body}\n"
+
+
+# ---- compatibility entry point (C20: LT.set_value_in_millis / get_value_in_millis) -------------------------------
+
+def translate(func, lean_name, params, enums=None, ret_fields=None, ty="Nat"):
+    raise Unsupported("py2lean.translate was replaced by translate_job (see gen_extract.py)")
